@@ -203,7 +203,107 @@ func bump(k : int) -> int { total = total + k; total }
 func main(k : int) -> int { bump(k) + bump(1) }
 """ % rng.range(0, 100), dict(api=True))]
 
-FAMILIES = [tail_family, deeprec_family, alloc_family, exc_family, idx_family, api_family]
+def shapes_family(rng):
+    """rarely taken emitter paths; each program prints values whose expected text is computed here, independently"""
+    out = []
+    a, b = rng.range(2, 9), rng.range(2, 9)
+    k = a * 100
+    out.append(("shape_stmt_then_func", """
+func calc(a : int, b : int) -> int
+{
+    let k = a * 100;
+    print(k);
+    func scale(x : int) -> int { x * 2 };
+    scale(b) + k
+}
+func main(n : int) -> int { let r = calc(%d, %d); print(r); r }
+""" % (a, b), dict(shape=True, expect_out="%d\r\n%d\r\n" % (k, 2 * b + k), expect_res="I%d" % (2 * b + k))))
+    x, y = rng.range(2, 9), rng.range(2, 9)
+    out.append(("shape_pipe_tuple_local", """
+func add(a : int, b : int) -> int { a + b }
+func mul(a : int, b : int) -> int { a * b }
+func apply(f(int, int) -> int, g(int, int) -> int, t : (int, int)) -> int { t |> f() }
+func main(n : int) -> int {
+    let t = (%d, %d) : (int, int);
+    let f = mul; let g = add;
+    print(t |> g()); print(t |> f());
+    print(apply(add, mul, t)); print(apply(mul, add, t));
+    0
+}
+""" % (x, y), dict(shape=True, expect_out="%d\r\n%d\r\n%d\r\n%d\r\n" % (x + y, x * y, x + y, x * y), expect_res="I0")))
+    lo, hi = rng.range(0, 2), rng.range(3, 5)
+    arr = [10, 20, 30, 40, 50, 60]
+    up = arr[lo:hi + 1]; down = list(reversed(up))
+    kk = rng.range(1, 9)
+    out.append(("shape_compr_slices", """
+func show(t[D] : int) -> int { var s = 0; for (e in t) { print(e); s = s + e }; s }
+func main(n : int) -> int {
+    let a = [ 10, 20, 30, 40, 50, 60 ] : int;
+    let k = %d;
+    let up = [ x + k | x in a[%d .. %d] ] : int;
+    let down = [ x + k | x in a[%d .. %d] ] : int;
+    let rg = [ i * k | i in [ %d .. %d ] ] : int;
+    let rd = [ i * k | i in [ %d .. %d ] ] : int;
+    show(up) + show(down) * 2 + show(rg) * 3 + show(rd) * 5
+}
+""" % (kk, lo, hi, hi, lo, lo, hi, hi, lo),
+        dict(shape=True, expect_out="".join("%d\r\n" % v for v in [e + kk for e in up] + [e + kk for e in down] + [i * kk for i in range(lo, hi + 1)] + [i * kk for i in range(hi, lo - 1, -1)]),
+             expect_res="I%d" % (sum(e + kk for e in up) * 3 + sum(i * kk for i in range(lo, hi + 1)) * 8))))
+    n1, n2 = rng.range(1, 9), rng.range(10, 99)
+    out.append(("shape_closure_reassign", """
+func adder(k : int) -> (int) -> int { let func add(x : int) -> int { x + k } }
+func main(n : int) -> int {
+    var f = let func (x : int) -> int { 0 };
+    f = adder(%d);
+    print(f(5));
+    f = adder(%d);
+    print(f(5));
+    f(0)
+}
+""" % (n1, n2), dict(shape=True, expect_out="%d\r\n%d\r\n" % (5 + n1, 5 + n2), expect_res="I%d" % n2)))
+    out.append(("shape_not_tail", """
+func odd_steps(n : int) -> bool { n == 0 ? false : !odd_steps(n - 1) }
+func main(n : int) -> int { print(odd_steps(0) ? 1 : 0); print(odd_steps(1) ? 1 : 0); print(odd_steps(2) ? 1 : 0); print(odd_steps(7) ? 1 : 0); 0 }
+""", dict(shape=True, expect_out="0\r\n1\r\n0\r\n1\r\n", expect_res="I0")))
+    c1, c2, c3 = rng.range(1, 9), rng.range(1, 9), rng.range(1, 9)
+    out.append(("shape_nest3", """
+func outer(a : int) -> (int) -> (int) -> int {
+    let func mid(b : int) -> (int) -> int {
+        let func inner(c : int) -> int { a * 100 + b * 10 + c }
+    }
+}
+func outer2(a : int) -> (int) -> (int) -> int {
+    let func mid(b : int) -> (int) -> int {
+        let func inner(c : int) -> int { b * 10 + a * 100 + c }
+    }
+}
+func main(n : int) -> int { print(outer(%d)(%d)(%d)); print(outer2(%d)(%d)(%d)); 0 }
+""" % (c1, c2, c3, c3, c2, c1), dict(shape=True, expect_out="%d\r\n%d\r\n" % (c1 * 100 + c2 * 10 + c3, c3 * 100 + c2 * 10 + c1), expect_res="I0")))
+    i0, inc = rng.range(1, 9), rng.range(2, 9)
+    out.append(("shape_prefix_capture", """
+func counter(i : int, inc : int) -> () -> int {
+    var cur = i + 0;
+    let func step() -> int { cur = cur + inc; cur + i }
+}
+func main(n : int) -> int { let c = counter(%d, %d); print(c()); print(c()); c() }
+""" % (i0, inc), dict(shape=True, expect_out="%d\r\n%d\r\n" % (2 * i0 + inc, 2 * i0 + 2 * inc), expect_res="I%d" % (2 * i0 + 3 * inc))))
+    p, q, xx, yy = rng.range(1, 9), rng.range(1, 9), rng.range(1, 9), rng.range(1, 9)
+    out.append(("shape_rethrow_env", """
+func thrower(p : int, q : int) -> () -> int { let func t() -> int { (p + q) / (p - p) } }
+func catcher(x : int, y : int) -> () -> int {
+    let func c() -> int { let t = thrower(%d, %d); t() + x } catch (division_by_zero) { x * 1000 + y }
+}
+func main(n : int) -> int { let c = catcher(%d, %d); print(c()); 0 }
+""" % (p, q, xx, yy), dict(shape=True, expect_out="%d\r\n" % (xx * 1000 + yy), expect_res="I0")))
+    out.append(("shape_match_enum_values", """
+enum S { TWO = S::THREE - S::ONE, THREE = 3, ONE = 1 }
+enum A { X = Z::K * 2 + 1, Y }
+enum Z { K = 21 }
+func main(n : int) -> int { print(S::TWO + 0); print(A::X + 0); print(A::Y + 0); 0 }
+""", dict(shape=True, expect_out="2\r\n43\r\n44\r\n", expect_res="I0")))
+    return out
+
+FAMILIES = [tail_family, deeprec_family, alloc_family, exc_family, idx_family, api_family, shapes_family]
 
 def generate(seed, rounds=1):
     rng = Rng(seed)
